@@ -34,10 +34,20 @@ func H_C20_outcome() {
 			writeFile(dir+"/f_1.snap.json", stored)
 		}
 	}
+	name := "TestM"
+	if state == 0 && vxrt.Bool("file-name-longer-than-NAME_MAX") {
+		// a snapshot file name of more than 255 bytes: creating it fails
+		// (a real, reproducible file-system error)
+		long := make([]byte, 260)
+		for i := range long {
+			long[i] = 'n'
+		}
+		c = cfgWithOptName(dir, opt, string(long))
+	}
 	_ = isCI // force start-up
 	pre := [4]int{testEvents.items[erred], testEvents.items[added], testEvents.items[updated], testEvents.items[passed]}
 	vxrt.FSFaults(vxrt.Param("faults", 1) == 1)
-	t := newT("TestM")
+	t := newT(name)
 	switch api {
 	case 0:
 		c.MatchSnapshot(t, recv)
@@ -176,4 +186,34 @@ func itoa(n int) string {
 		n /= 10
 	}
 	return s
+}
+
+// H_C20_skips: the summary's skip count is the number of snaps.Skip* calls made
+// in the process, whatever the names (repeated, parent then child, ...).
+func H_C20_skips() {
+	vxrt.CI(false)
+	vxrt.EnvFixed("NO_COLOR", "1")
+	vxrt.Flag("test.run", "")
+	vxrt.Flag("test.count", "1")
+	names := []string{"TestP", "TestP/child", "TestQ"}
+	k := vxrt.Len("skip-calls", 1, vxrt.Param("skips", 3))
+	for s := 0; s < k; s++ {
+		t := newT(names[vxrt.Choice("who", len(names))])
+		switch vxrt.Choice("wrapper", 3) {
+		case 0:
+			Skip(t, "x")
+		case 1:
+			Skipf(t, "%s", "x")
+		default:
+			SkipNow(t)
+		}
+		vxrt.Assert(t.skips == 1 && len(t.logs) == 1, "C20:skip-forwards-and-logs")
+	}
+	Clean(nil)
+	out := vxrt.Stdout()
+	want := skipSymbol + itoa(k) + " snapshot skipped\n"
+	if k > 1 {
+		want = skipSymbol + itoa(k) + " snapshots skipped\n"
+	}
+	vxrt.Assert(strings.Contains(out, want), "C20:summary-counts-every-skip-call")
 }
